@@ -479,6 +479,9 @@ def run(tier, seed, workers=None):
     tot.mismatches += seq.mismatches
     tot.error = tot.error or seq.error
     tot.counters['sequential_outcome_jobs'] = seq.evaluations
+    from . import C17b
+    tot.counters['webhook_status_events_delivered'] = \
+        C17b.webhook_events_pass(cr, workers)
     for ci, (webhooks, bound) in enumerate(CONFIGS[tier]):
         for rotation, backtrace in ((0, True), (3, False)) if tier == 'quick'\
                 else ((0, True), (2, True), (3, False), (5, False)):
@@ -530,6 +533,10 @@ def run(tier, seed, workers=None):
 
 
 def replay(data):
+    if 'webhook_case' in data:
+        from . import C17b
+        return C17b.replay({'case': data['webhook_case'],
+                            'judge_dropped': True})
     case = data['case']
     if case.get('free_running'):
         core.import_berte()
